@@ -39,6 +39,23 @@ func (k Keeper) RandomIndex(seed *big.Int, total, count int) []int {
 		return idx
 	}
 	for count > 0 {
+		if seed.Sign() == 0 {
+			// the seed is used up (it only ever yields index 0 from here on):
+			// complete the draw with the smallest indices not taken yet
+			for v := 0; v < total && count > 0; v++ {
+				taken := false
+				for _, u := range idx {
+					if u == v {
+						taken = true
+					}
+				}
+				if !taken {
+					idx = append(idx, v)
+					count -= 1
+				}
+			}
+			break
+		}
 		rs := int(new(big.Int).Mod(seed, big.NewInt(int64(mod))).Int64()) % total
 		seed = new(big.Int).Div(seed, big.NewInt(10))
 		duplicate := false
